@@ -2,7 +2,7 @@
    Floats are bit patterns; the specification (Proofs/FloatCast.v) is integer-only. *)
 From Bnum Require Import Base Prim.
 From Bnum.Model Require Import Digit Core Shift AddSub Bits FloatCast.
-From Bnum.Proofs Require Import FloatCastDeps FloatCast.
+From Bnum.Proofs Require Import FloatCastDeps FloatCast FloatCastTo.
 
 (* f32/f64 -> BUint: NaN -> 0, negative -> 0, +inf -> MAX, else truncate toward zero and saturate *)
 Theorem C14_float_to_uint_ok : forall dbg F w n x,
@@ -20,6 +20,40 @@ Theorem C14_float_to_sint_ok : forall dbg F w n x,
             sval w r = float_to_S_spec F (Mod w n) x.
 Proof. exact I_from_float_ok. Qed.
 Print Assumptions C14_float_to_sint_ok.
+
+(* BUint -> f32/f64.  With X the value and r the returned bit pattern (int_to_float_spec):
+   X = 0 -> +0;  0 < X < 2^emax - 2^(emax-p-1) -> r is THE finite float nearest to X, ties to the even
+   mantissa (rne_nearest, unique by C14_rne_nearest_unique);  X >= that threshold -> +infinity;
+   bitlen X <= p -> r is finite and denotes X exactly. *)
+Theorem C14_uint_to_float_ok : forall dbg F w n a,
+  shr_pad_internal_spec -> bits_of_spec -> trailing_zeros_spec -> bit_spec ->
+  fmt_ok F -> 0 < w -> wf w n a ->
+  exists r, U_to_float dbg F w a = Ret r /\ int_to_float_spec F (uval w a) r.
+Proof. exact cast_float_from_uint_ok. Qed.
+Print Assumptions C14_uint_to_float_ok.
+
+(* BInt -> f32/f64: the magnitude |sval| is converted as above, the sign bit is set iff sval < 0 *)
+Theorem C14_sint_to_float_ok : forall dbg F w n a,
+  shr_pad_internal_spec -> bits_of_spec -> trailing_zeros_spec -> bit_spec ->
+  I_overflowing_neg_spec -> is_negative_spec ->
+  fmt_ok F -> 0 < w -> (0 < n)%nat -> wf w n a ->
+  exists f, I_to_float dbg F w a = Ret (if sval w a <? 0 then f + 2 ^ (fbits F - 1) else f) /\
+            int_to_float_spec F (Z.abs (sval w a)) f.
+Proof. exact I_to_float_ok. Qed.
+Print Assumptions C14_sint_to_float_ok.
+
+(* "nearest, ties to even" determines the float: the specification is a characterisation *)
+Theorem C14_rne_nearest_unique : forall F X y1 y2, fmt_ok F ->
+  rne_nearest F X y1 -> rne_nearest F X y2 -> y1 = y2.
+Proof. exact rne_nearest_unique. Qed.
+Print Assumptions C14_rne_nearest_unique.
+
+(* the cast as it was on the pinned tree (before the repair ed48fe2) does NOT meet the specification: 0.75 -> 1 *)
+Theorem C14_float_to_int_refuted_prefix :
+  exists x r, 0 <= x < 2 ^ fbits F64 /\ cast_uint_from_float_prefix true F64 64 2 x = Ret r /\
+              uval 64 r <> float_to_U_spec F64 (Mod 64 2) x.
+Proof. exact float_to_int_refuted. Qed.
+Print Assumptions C14_float_to_int_refuted_prefix.
 
 (* the format side conditions hold for f32 and f64 *)
 Theorem C14_fmt_ok_f32 : fmt_ok F32.
@@ -40,3 +74,25 @@ Proof. vm_compute. split; reflexivity. Qed.
 Example C14_spec_nan_inf : float_to_S_spec F64 (2 ^ 16) 0x7ff8000000000001 = 0 /\
                            float_to_S_spec F64 (2 ^ 16) 0xfff0000000000000 = - 2 ^ 15.
 Proof. vm_compute. split; reflexivity. Qed.
+
+(* int -> float on concrete inputs, through the model: 2^24+1 is a tie -> even (2^24); 2^24+3 is a tie -> 2^24+4;
+   u128::MAX -> +inf (f32); the threshold itself rounds to +inf, one below it to f32::MAX *)
+Example C14_model_ties :
+  U_to_float true F32 8 [0x01; 0x00; 0x00; 0x01] = Ret 0x4b800000 /\
+  U_to_float true F32 8 [0x03; 0x00; 0x00; 0x01] = Ret 0x4b800002 /\
+  U_to_float false F32 64 [0xffffffffffffffff; 0xffffffffffffffff] = Ret 0x7f800000 /\
+  U_to_float false F32 64 [0; 0xffffff8000000000] = Ret 0x7f800000 /\
+  U_to_float false F32 64 [0xffffffffffffffff; 0xffffff7fffffffff] = Ret 0x7f7fffff.
+Proof. vm_compute. repeat split. Qed.
+Example C14_threshold_f32 : inf_threshold F32 = 2 ^ 128 - 2 ^ 103.
+Proof. vm_compute. reflexivity. Qed.
+Example C14_f_num_one : f_num F32 0x3f800000 = 2 ^ fmin F32 /\ fmin F32 = 149.
+Proof. vm_compute. split; reflexivity. Qed.
+
+(* the hypotheses of the theorems are satisfiable *)
+Example C14_hyps_sat : fmt_ok F32 /\ fmt_ok F64 /\ 0 < 8 /\ (0 < 4)%nat /\ wf 8 4 [1; 0; 0; 1] /\
+                       0 <= 0x3f400000 < 2 ^ fbits F32.
+Proof.
+  split; [exact fmt_ok_F32|]. split; [exact fmt_ok_F64|]. split; [lia|]. split; [lia|].
+  split; [apply wfb_wf; vm_compute; reflexivity | vm_compute; split; [discriminate | reflexivity]].
+Qed.
